@@ -332,6 +332,13 @@ def run_unit(prop, unit, pcfg, cache, usize=8, seed=None, want_canary=True, forc
         for d in res['diags']:
             sp = [x for x in d['spans'] if x['is_primary']] or d['spans']
             if not sp: continue                      # summary lines ("aborting due to ..") carry no location
+            # a name of the spliced contract text that the edited module no longer imports: take rustc's suggested import
+            mu = re.search(r'^\s*\d+\s*\+\s*(use crate::[A-Za-z0-9_:]+);', d.get('rendered', ''), re.M)
+            if d.get('rustc_code') in ('E0425', 'E0412', 'E0433', 'E0405', 'E0422', 'E0531') and mu:
+                mod_ = module_at_line(module_index(gen.text), sp[0]['line_start'])
+                if mod_ and (mod_, mu.group(1)) not in force:
+                    bad[(mod_, mu.group(1))] = 'import repair'
+                    continue
             f = fn_at_line(gen, sp[0]['line_start'])
             if f is None:
                 # not inside a function: a const item whose initialiser the front end rejects is left out (external)
